@@ -943,7 +943,10 @@ class AdapterRegistry(BaseAdapterRegistry):
     def __init__(self, bases=()):
         # AdapterRegisties are invalidating registries, so
         # we need to keep track of our invalidating subregistries.
-        self._v_subregistries = weakref.WeakKeyDictionary()
+        # ``rebuild`` calls this again; the registries that have us
+        # as a base still do, so keep them.
+        if '_v_subregistries' not in self.__dict__:
+            self._v_subregistries = weakref.WeakKeyDictionary()
 
         super().__init__(bases)
 
